@@ -189,6 +189,9 @@ func (r *Report) Finish(verifDir string, prog *Program, start time.Time, seed in
 			nDis++
 		case Info:
 			nInfo++
+			if os.Getenv("ELACHECK_VERBOSE") != "" {
+				fmt.Printf("INFO property=%s rule=%s key=%s at %s: %s\n", r.Prop, o.Rule, o.Key, o.Pos, o.Detail)
+			}
 			continue
 		case Violated, Undecided:
 			if k, ok := kmap[o.Rule+"|"+o.Key]; ok {
